@@ -471,10 +471,10 @@ func Go(f func()) {
 		go f()
 		return
 	}
-	if c.aborting {
+	if c.aborting || spawnMode == SpawnSuppress {
 		return
 	}
-	c.spawn(fmt.Sprintf("g%d", len(c.threads)), false, f)
+	c.spawn(fmt.Sprintf("g%d", len(c.threads)), spawnMode == SpawnDaemon, f)
 }
 
 // GoNamed starts a named thread; daemon threads may stay parked at a channel wait at the end.
@@ -484,7 +484,7 @@ func GoNamed(name string, daemon bool, f func()) {
 		go f()
 		return
 	}
-	if c.aborting {
+	if c.aborting || (spawnMode == SpawnSuppress && daemon) {
 		return
 	}
 	c.spawn(name, daemon, f)
@@ -867,3 +867,15 @@ func Count(name string, n int64) {
 		c.counters[name] += n
 	}
 }
+
+// Spawn modes for threads created by rewritten `go` statements (vsched.Go).
+const (
+	SpawnNormal   = 0
+	SpawnDaemon   = 1 // threads may stay parked at a channel wait when the execution ends
+	SpawnSuppress = 2 // the goroutine is not started at all (the harness drives that code inline)
+)
+
+var spawnMode = SpawnNormal
+
+// SetSpawnMode changes how vsched.Go treats new threads (harness use, around wiring code).
+func SetSpawnMode(m int) { spawnMode = m }
